@@ -394,12 +394,14 @@ def _mapfile_text(rows, header, comments, quirks):
     return '\n'.join(lines) + '\n'
 
 
-def _ref_parse(text, header_override, process):
+def _ref_parse(text, header_override, process, strip_quotes=True):
     """independent parse of a mapping file as documented: header line,
-    comment lines, blank lines, short rows padded with '', quotes removed,
-    fields stripped, per-column conversions"""
+    comment lines, blank lines, short rows padded with '', quotes removed
+    (unless strip_quotes is off), fields stripped, per-column conversions"""
     def clean(x):
-        return x.replace('"', '').strip()
+        if strip_quotes:
+            x = x.replace('"', '')
+        return x.strip()
     header = list(header_override) if header_override else []
     out = {}
     for line in text.split('\n'):
@@ -517,22 +519,27 @@ def c18_mapfile(w, ev, slot):
               'sc_pipe_separated': MA._split_on_semicolons_and_pipes}[key]
         for fld in fields:
             libproc[fld] = fn
+    keep_quotes = (a >> 4) % 3 == 0
+    want_direct = _ref_parse(text, override, process,
+                             strip_quotes=not keep_quotes)
     for label, src in (('list of lines', text.splitlines(True)),
                        ('file handle', open(path, encoding='utf8')),
                        ('path', path)):
         try:
             got = MetadataMap.from_file(src, process_fns=dict(libproc),
                                         header=list(override) if override
-                                        else None)
+                                        else None,
+                                        strip_quotes=not keep_quotes)
         except Exception as e:  # noqa
             w.fail('c18.mapfile', 'MetadataMap.from_file(%s) raised %r'
                    % (label, e))
         finally:
             if hasattr(src, 'close'):
                 src.close()
-        if dict(got) != want:
-            w.fail('c18.mapfile', 'MetadataMap.from_file(%s) parsed %r, the '
-                   'rows describe %r' % (label, dict(got), want))
+        if dict(got) != want_direct:
+            w.fail('c18.mapfile', 'MetadataMap.from_file(%s, strip_quotes=%s) '
+                   'parsed %r, the rows describe %r'
+                   % (label, not keep_quotes, dict(got), want_direct))
     # apply through the add-metadata command (in place on this table)
     exp = ref.copy()
     cur = [dict(d) for d in exp.mdl(ax)]
